@@ -155,6 +155,21 @@ type Env struct {
 	// PushReads are the observations of readers that looked at the keys while the victim was committing
 	PushMu    sync.Mutex
 	PushReads []PushRead
+
+	cancelMu     sync.Mutex
+	cancelCommit context.CancelFunc
+}
+
+type envCtxKey struct{}
+
+// CancelCommit cancels the context the victim's Commit runs under (a caller that gives up while Commit is running).
+func (e *Env) CancelCommit() {
+	e.cancelMu.Lock()
+	c := e.cancelCommit
+	e.cancelMu.Unlock()
+	if c != nil {
+		c()
+	}
 }
 
 // PushRead is what a reader with snapshot TS saw during the victim's commit.
@@ -209,8 +224,16 @@ func (e *Env) Close() { e.U.Close() }
 // RunVictim executes the victim's program; the commitReturned channel is
 // closed when the program's Commit (or Rollback) call has returned.
 func (e *Env) RunVictim(commitReturned chan struct{}) *work.TxnRec {
-	r := &work.Runner{U: e.U, C: e.Victim, LockWaitMS: 20}
+	// Commit runs under a context of its own that is cancelled as soon as Commit has returned (the usual
+	// "defer cancel()" of a caller), or earlier by a fault plan (CancelCommit)
+	ctx, cancel := context.WithCancel(context.WithValue(context.Background(), envCtxKey{}, "victim"))
+	e.cancelMu.Lock()
+	e.cancelCommit = cancel
+	e.cancelMu.Unlock()
+	defer cancel()
+	r := &work.Runner{U: e.U, C: e.Victim, LockWaitMS: 20, CommitCtx: ctx}
 	rec := r.Run(1, e.Shape.Spec())
+	cancel()
 	if commitReturned != nil {
 		close(commitReturned)
 	}
